@@ -620,3 +620,123 @@ def directed_hold(rng):
         b.add("sleep 10")
         cases.append((b.ops, "hold-" + how))
     return cases
+
+
+# ---- server half of C14: component s_drain (harness/synct/c_serverdrain_test.go) -------------------------------
+
+GOAWAY_PING = "0106010800030309"
+
+
+class DrainBuilder:
+    def __init__(self, rng):
+        self.rng = rng
+        self.ops = ["start"]
+        self.next = 1
+        self.ids = []
+        self.pings = 0
+        self.held = False
+
+    def add(self, op):
+        self.ops.append(op)
+
+    def hdr(self, sid=None):
+        if sid is None:
+            sid = self.next
+        self.add("hdr %d" % sid)
+        if sid % 2 == 1 and sid >= self.next:
+            self.ids.append(sid)
+            self.next = sid + 2
+
+    def hold(self):
+        """stall loopy: the client stops reading and one PING ack is waiting to be flushed"""
+        if self.held or self.pings >= 2:
+            return False
+        self.add("hold")
+        self.add("ping")
+        self.pings += 1
+        self.held = True
+        return True
+
+    def release(self):
+        if self.held:
+            self.add("release")
+            self.held = False
+
+    def random_op(self):
+        rng = self.rng
+        r = rng.random()
+        if r < 0.28:
+            self.hdr(self.next + rng.choice([0, 0, 0, 2]))
+        elif r < 0.31:
+            self.hdr(rng.choice([0, 2, self.next - 2 if self.next > 2 else 1, self.next + 1]))     # illegal id
+        elif r < 0.43:
+            self.add("drain")
+        elif r < 0.53:
+            self.add("pingack " + (GOAWAY_PING if rng.random() < 0.8 else "0000000000000000"))
+        elif r < 0.72 and self.ids:
+            self.add("finish %d %d" % (rng.choice(self.ids), rng.choice([0, 0, 5, 13])))
+        elif r < 0.80 and self.ids:
+            self.add("rst %d" % rng.choice(self.ids))
+        elif r < 0.90:
+            self.add("sleep %d" % rng.choice([10, 500, 1000, 5000]))
+        elif r < 0.94:
+            if not self.hold():
+                self.release()
+        elif r < 0.97:
+            self.release()
+        elif r < 0.985:
+            self.add("peerclose")
+        else:
+            self.add("close")
+
+
+def drain_cases(rng, n_random):
+    cases = []
+    # the protocol as designed: GOAWAY(2^31-1)+PING, streams racing in, ack (or 5 s), GOAWAY(max), drain, close
+    for k in (0, 1, 2, 4):
+        for racing in (0, 1, 2):
+            for how in ("ack", "timer", "wrongack"):
+                b = DrainBuilder(rng)
+                for _ in range(k):
+                    b.hdr()
+                b.add("drain")
+                for _ in range(racing):
+                    b.hdr()
+                b.add({"ack": "pingack " + GOAWAY_PING, "timer": "sleep 5000", "wrongack": "pingack 0000000000000001"}[how])
+                if how == "wrongack":
+                    b.add("sleep 5000")
+                b.hdr()                      # after the final GOAWAY: must not be accepted
+                ids = list(b.ids)
+                rng.shuffle(ids)
+                for i in ids:
+                    b.add(rng.choice(["finish %d 0" % i, "finish %d 5" % i, "rst %d" % i]))
+                b.add("sleep 2000")
+                b.add("end")
+                cases.append((b.ops, "drain-%d-%d-%s" % (k, racing, how)))
+    # loopy stalled while the ack arrives: a stream accepted between the ack and the final GOAWAY
+    for first in ("rst", "finish"):
+        for k in (1, 2):
+            b = DrainBuilder(rng)
+            for _ in range(k):
+                b.hdr()
+            b.add("drain")
+            b.hold()
+            b.add("pingack " + GOAWAY_PING)
+            for i in list(b.ids):
+                b.add("%s %d%s" % (first, i, " 0" if first == "finish" else ""))
+            b.hdr()
+            b.release()
+            b.add("sleep 2000")
+            b.add("finish %d 0" % b.ids[-1])
+            b.add("end")
+            cases.append((b.ops, "drain-stalled-%s-%d" % (first, k)))
+    for i in range(n_random):
+        b = DrainBuilder(rng)
+        for _ in range(rng.randrange(0, 4)):
+            b.hdr()
+        for _ in range(rng.randrange(3, 25)):
+            b.random_op()
+        b.release()
+        b.add("end")
+        cases.append((b.ops, "drain-rand-%d" % i))
+    return cases
